@@ -475,3 +475,6 @@ UNITS += [sha_end]
 _bat = replay.battery('C15/driver.cpp', ['battery'])
 for _u in UNITS:
     _u.replay = replay.first_of(_u.replay, _bat) if _u.replay else _bat
+
+# planted one-token breaks for the newer units (thorough tier: each must make an obligation fail)
+sha_end.planted = [('end', r'!= 448', '!= 440')]
